@@ -364,6 +364,9 @@ def run(ck):
     api = {f.path for f in P.fns.values() if f.crate == "zlib_rs" and f.j.get("vis") == "Public" and P.callers_of(f.path) & set(roots)}
     abort.check(ck, P, roots, "ABORT/compress", abort_table.JUSTIFIED, api_fns=api, label="compression")
     from .. import condparity
+    from .. import guards as _g
+    _g.finished_early_return(ck, P)
+    _g.prime_room(ck, P)
     ck.floor("SIB/ref-conditions", condparity.check(ck, P, "SIB/ref-conditions", only={"match_tpl.h:LONGEST_MATCH", "deflate.c:flush_pending", "deflate.c:read_buf", "deflate.c:deflate", "deflate_stored.c:deflate_stored", "deflate.c:fill_window"}), 50)
     guards(ck, P)
     signed_offsets(ck, P)
